@@ -55,4 +55,73 @@ theorem decodeItems_encode (items : List Item) (h : ∀ i ∈ items, ItemOK i) (
     have : it.kind * 2 / 2 % 4 = it.kind := by omega
     rw [this]
 
+/-! ## the whole tag: header, items, footer -/
+
+theorem toLE4 (n : Nat) : ∃ a b c d, toLE 4 n = [a, b, c, d] := ⟨_, _, _, _, rfl⟩
+
+theorem hf_shape (size count flags : Nat) :
+    ∃ v s c f : Bytes, v = toLE 4 2000 ∧ s = toLE 4 size ∧ c = toLE 4 count ∧ f = toLE 4 flags ∧
+      headerOrFooter size count flags = preamble ++ v ++ s ++ c ++ f ++ zeros 8 := ⟨_, _, _, _, rfl, rfl, rfl, rfl, rfl⟩
+
+theorem hf_length (size count flags : Nat) : (headerOrFooter size count flags).length = 32 := by
+  simp [headerOrFooter, preamble]
+
+theorem hf_take8 (size count flags : Nat) : (headerOrFooter size count flags).take 8 = preamble := by
+  simp only [headerOrFooter, List.append_assoc]
+  exact List.take_left' (by simp [preamble])
+
+theorem hf_fields (size count flags : Nat) :
+    ((headerOrFooter size count flags).drop 12).take 4 = toLE 4 size ∧
+    ((headerOrFooter size count flags).drop 16).take 4 = toLE 4 count ∧
+    ((headerOrFooter size count flags).drop 20).take 4 = toLE 4 flags ∧
+    ((headerOrFooter size count flags).drop 8).take 12 = toLE 4 2000 ++ toLE 4 size ++ toLE 4 count := by
+  obtain ⟨a1, a2, a3, a4, h1⟩ := toLE4 2000
+  obtain ⟨b1, b2, b3, b4, h2⟩ := toLE4 size
+  obtain ⟨c1, c2, c3, c4, h3⟩ := toLE4 count
+  obtain ⟨d1, d2, d3, d4, h4⟩ := toLE4 flags
+  simp only [headerOrFooter, preamble, h1, h2, h3, h4]
+  refine ⟨rfl, rfl, rfl, rfl⟩
+
+def TagOK (items : List Item) : Prop :=
+  (∀ i ∈ items, ItemOK i) ∧ items.length < 256 ^ 4 ∧ ((items.map encodeItem).flatten).length + 32 < 256 ^ 4
+
+/-- the strict tag decoder (preamble, header/footer agreement, header flag, declared size fills
+the tag exactly, item count) reads back exactly the items APEv2.save wrote -/
+theorem decodeTag_encodeTag (items : List Item) (h : TagOK items) : decodeTag (encodeTag items) = some items := by
+  obtain ⟨hi, hc, hs⟩ := h
+  simp only [encodeTag]
+  generalize hB : (items.map encodeItem).flatten = body at hs ⊢
+  have hdec := decodeItems_encode items hi []
+  rw [hB, List.append_nil] at hdec
+  generalize hH : headerOrFooter (body.length + 32) items.length (hasHeader + isHeader) = H
+  generalize hF : headerOrFooter (body.length + 32) items.length hasHeader = F
+  have lH : H.length = 32 := by rw [← hH]; exact hf_length _ _ _
+  have lF : F.length = 32 := by rw [← hF]; exact hf_length _ _ _
+  have fH := hf_fields (body.length + 32) items.length (hasHeader + isHeader)
+  have fF := hf_fields (body.length + 32) items.length hasHeader
+  rw [hH] at fH; rw [hF] at fF
+  have tH : H.take 8 = preamble := by rw [← hH]; exact hf_take8 _ _ _
+  have tF : F.take 8 = preamble := by rw [← hF]; exact hf_take8 _ _ _
+  have len : (H ++ body ++ F).length = body.length + 64 := by simp [lH, lF]; omega
+  have e1 : (H ++ body ++ F).take 32 = H := by
+    rw [List.append_assoc, ← lH]; exact List.take_left' rfl
+  have e2 : (H ++ body ++ F).drop (body.length + 64 - 32) = F := by
+    have : body.length + 64 - 32 = (H ++ body).length := by simp only [List.length_append, lH]; omega
+    rw [this]; exact List.drop_left' rfl
+  have e3 : ((H ++ body ++ F).drop 32).take (body.length + 32 - 32) = body := by
+    rw [List.append_assoc, ← lH, List.drop_left' rfl]
+    have : H.length + body.length + 32 - H.length - 0 = body.length + 32 := by omega
+    simp only [Nat.add_sub_cancel]
+    exact List.take_left' rfl
+  unfold decodeTag
+  simp only [len, e1, e2, tH, tF, fH.1, fH.2.1, fH.2.2.1, fH.2.2.2, fF.2.2.2,
+    ofLE_toLE 4 _ hs, ofLE_toLE 4 _ hc]
+  have hfl : ofLE (toLE 4 (hasHeader + isHeader)) = hasHeader + isHeader :=
+    ofLE_toLE 4 _ (by decide)
+  rw [hfl]
+  have c1 : ¬ (body.length + 64 < 64) := by omega
+  have c2 : (hasHeader + isHeader) / isHeader % 2 = 1 := by decide
+  have c3 : body.length + 32 + 32 = body.length + 64 := by omega
+  simp only [c1, c2, c3, e3, hdec, ↓reduceIte, ne_eq, not_true_eq_false, or_self]
+
 end Mutagen.Ape
